@@ -740,6 +740,10 @@ func (r *replicateChannelManager) startReadChannel(ctx context.Context, sourceIn
 		channelHandler.isDroppedPartition = r.isDroppedPartition
 		channelHandler.replicateID = r.replicateID
 		diffValueForKey := r.channelMapping.CheckKeyNotExist(sourceInfo.PChannel, targetInfo.PChannel)
+		if diffValueForKey && r.channelForwardMap[channelMappingValue] >= r.channelMapping.AverageCnt() {
+			// the free places of this channel have been promised to waiting handlers (forwardChannel)
+			diffValueForKey = false
+		}
 
 		if !diffValueForKey {
 			channelLog.Info("channel already has replicate for target channel")
@@ -820,7 +824,7 @@ func (r *replicateChannelManager) waitChannel(sourceInfo *model.SourceCollection
 				} else {
 					channelHandler.sourcePChannel = targetChannel
 				}
-				r.channelForwardMap[targetChannel] += 1
+				// (the place was counted in channelForwardMap when forwardChannel promised it)
 				r.channelMapping.AddKeyValue(channelHandler.sourcePChannel, channelHandler.targetPChannel)
 				channelHandler.startReadChannel()
 				r.channelLock.Unlock()
